@@ -18,6 +18,14 @@ pub fn init(capacity: usize) -> Result<(), u32> {
                 s.reset(0);
             }
         }
+        #[cfg(naijascript_verif)]
+        crate::verif::emit(crate::verif::SCRATCH, || {
+            format!(
+                "{{\"ev\":\"scratch_init\",\"off\":[{},{}]}}",
+                S_SCRATCH[0].offset(),
+                S_SCRATCH[1].offset()
+            )
+        });
     }
     Ok(())
 }
@@ -58,6 +66,22 @@ pub fn scratch_arena(conflict: Option<&Arena>) -> ScratchArena<'static> {
 
         let index = usize::from(opt_ptr_eq(conflict, Some(&S_SCRATCH[0])));
         let arena = &S_SCRATCH[index];
+        #[cfg(naijascript_verif)]
+        crate::verif::emit(crate::verif::SCRATCH, || {
+            let c = if conflict.is_none() {
+                -1
+            } else if opt_ptr_eq(conflict, Some(&S_SCRATCH[0])) {
+                0
+            } else if opt_ptr_eq(conflict, Some(&S_SCRATCH[1])) {
+                1
+            } else {
+                2
+            };
+            format!(
+                "{{\"ev\":\"scratch_borrow\",\"arena\":{index},\"conflict\":{c},\"offset\":{}}}",
+                arena.offset()
+            )
+        });
         ScratchArena::new(arena)
     }
 }
@@ -94,8 +118,35 @@ impl<'a> ScratchArena<'a> {
     }
 }
 
+/// Borrows an arbitrary arena the way [`scratch_arena`] borrows a global one.
+/// Only compiled with `--cfg naijascript_verif`.
+#[cfg(naijascript_verif)]
+impl<'a> ScratchArena<'a> {
+    #[cfg(debug_assertions)]
+    pub fn verif_borrow(arena: &'a Arena) -> Self {
+        Self::new(arena.delegate_target())
+    }
+
+    #[cfg(not(debug_assertions))]
+    pub fn verif_borrow(arena: &'a Arena) -> Self {
+        Self::new(arena)
+    }
+}
+
 impl Drop for ScratchArena<'_> {
     fn drop(&mut self) {
+        #[cfg(naijascript_verif)]
+        {
+            #[cfg(debug_assertions)]
+            let target = self.arena.delegate_target_unchecked();
+            #[cfg(not(debug_assertions))]
+            let target = self.arena;
+            let index = unsafe { usize::from(!std::ptr::eq(target, &raw const S_SCRATCH[0])) };
+            let (from, to) = (target.offset(), self.offset);
+            crate::verif::emit(crate::verif::SCRATCH, || {
+                format!("{{\"ev\":\"scratch_drop\",\"arena\":{index},\"from\":{from},\"to\":{to}}}")
+            });
+        }
         unsafe { self.arena.reset(self.offset) };
         self.arena.decommit();
     }
